@@ -64,25 +64,48 @@ func denomIdx(d string) int {
 	return -1
 }
 
+// useKeyedUsers: derive the user accounts from secp256k1 keys (full-application path) instead of hashes
+var useKeyedUsers bool
+
 func NewEnv() *Env {
+	var users []sdk.AccAddress
+	if useKeyedUsers {
+		_, users = keyedUsers()
+	} else {
+		// users: deterministic addresses, numbered in bech32 string order
+		for i := 0; i < NUsers; i++ {
+			h := sha256.Sum256([]byte(fmt.Sprintf("verif-user-%d", i)))
+			users = append(users, sdk.AccAddress(h[:20]))
+		}
+		sort.Slice(users, func(i, j int) bool { return users[i].String() < users[j].String() })
+	}
+	e := NewEnvWith(users)
+	e.ctx = e.app.BaseApp.NewContext(false).WithBlockTime(time.Unix(T0, 0).UTC()).WithBlockHeight(1)
+	e.fund()
+	e.rebuild()
+	return e
+}
+
+// NewEnvWith: a fresh application and the given user accounts; no context, no funding, no keeper yet
+func NewEnvWith(users []sdk.AccAddress) *Env {
 	a, err := simapp.New("verif-1")
 	if err != nil {
 		panic(err)
 	}
 	e := &Env{app: a, failAt: -1}
-	e.ctx = a.BaseApp.NewContext(false).WithBlockTime(time.Unix(T0, 0).UTC()).WithBlockHeight(1)
-	// users: deterministic addresses, numbered in bech32 string order
-	for i := 0; i < NUsers; i++ {
-		h := sha256.Sum256([]byte(fmt.Sprintf("verif-user-%d", i)))
-		e.users = append(e.users, sdk.AccAddress(h[:20]))
-	}
-	sort.Slice(e.users, func(i, j int) bool { return e.users[i].String() < e.users[j].String() })
+	e.users = users
 	for _, u := range e.users {
 		e.userStr = append(e.userStr, u.String())
 		e.upperStr = append(e.upperStr, strings.ToUpper(u.String()))
 	}
 	e.pool = authtypes.NewModuleAddress(distrtypes.ModuleName)
 	e.gov = authtypes.NewModuleAddress(govtypes.ModuleName).String()
+	return e
+}
+
+// fund gives every user the same starting balances (the last one is poor) in the context e.ctx
+func (e *Env) fund() {
+	a := e.app
 	rich, _ := math.NewIntFromString("1000000000000000000000000")
 	for i, u := range e.users {
 		amt := rich
@@ -100,8 +123,6 @@ func NewEnv() *Env {
 			panic(err)
 		}
 	}
-	e.rebuild()
-	return e
 }
 
 // rebuild constructs the keeper under test over the application's store, with the recording
